@@ -9,6 +9,7 @@ import (
 	"os"
 	"sync"
 	"testing"
+	"time"
 
 	"github.com/256dpi/gomqtt/packet"
 
@@ -26,10 +27,11 @@ type policy struct {
 	HalfQ2    bool   // send PUBREC at once, withhold PUBCOMP until released
 	Reconnect int    // drop and resume after this many received messages (0 = never)
 	AllQ0     bool
+	IdleFirst bool // short token timeout; the connection idles longer than that before the stream starts
 }
 
 func (p policy) String() string {
-	return fmt.Sprintf("window=%d n=%d mix=%s batch=%d reverse=%t halfq2=%t reconnect@%d", p.Window, p.N, p.QoSMix, p.Batch, p.Reverse, p.HalfQ2, p.Reconnect)
+	return fmt.Sprintf("window=%d n=%d mix=%s batch=%d reverse=%t halfq2=%t reconnect@%d idle-first=%t", p.Window, p.N, p.QoSMix, p.Batch, p.Reverse, p.HalfQ2, p.Reconnect, p.IdleFirst)
 }
 
 type subscriber struct {
@@ -125,6 +127,10 @@ func run(r *h.Run, idx int, pol policy) {
 	r.Journal("C16 #%d %v", idx, pol)
 	b := bh.NewBroker()
 	b.Mon.Inner.ClientInflightMessages = pol.Window
+	if pol.IdleFirst {
+		// a subscriber that acknowledges within milliseconds must never be hit by the token timeout
+		b.Mon.Inner.ClientTokenTimeout = 600 * time.Millisecond
+	}
 	defer b.Shutdown()
 	fail := func(key, msg string) {
 		r.Violation(key, fmt.Sprintf("%v: %s", pol, msg), map[string]interface{}{"policy": pol.String(), "detail": msg, "event_log_tail": b.Log.Dump(120)})
@@ -159,6 +165,9 @@ func run(r *h.Run, idx int, pol policy) {
 	if err != nil || pca == nil {
 		r.Inconclusive("publisher could not connect")
 		return
+	}
+	if pol.IdleFirst {
+		time.Sleep(800 * time.Millisecond) // the connection is older than the token timeout when traffic starts
 	}
 	// publisher stream (own goroutine: Backend.Publish blocks while the subscriber's queue is full)
 	var sent []string
@@ -343,6 +352,11 @@ func TestCheck(t *testing.T) {
 			p.Reconnect = 1 + rng.Intn(p.N)
 		}
 		pols = append(pols, p)
+	}
+	// long-idle connections with a short token timeout, then window saturation
+	for i := 0; i < r.Pick(12, 120); i++ {
+		w := 1 + i%4
+		pols = append(pols, policy{Window: w, N: 12 + rng.Intn(20), QoSMix: []string{"1", "2", "12"}[i%3], Batch: w, Reverse: i%2 == 0, HalfQ2: i%3 == 0, IdleFirst: true})
 	}
 	h.Parallel(len(pols), 16, func(i int) { run(r, i, pols[i]) })
 	r.Count("streams", int64(len(pols)))
